@@ -96,9 +96,18 @@ def run(chk: Check, drv: Driver):
     c_jobs = []
     graph_prs = []
     kind_sets = [["evaluate"], ["assemble"], ["compute"], ["evaluate", "assemble", "compute"]]
-    for pr in kruns.enumerate_problems(chk, n_random=(40 if quick else 500), per_assignment=(3 if quick else 12), extra_texts=ident_texts):
-        if pr.problem is None:
-            continue
+    from .. import graphcorr
+
+    all_prs = [pr for pr in kruns.enumerate_problems(chk, n_random=(40 if quick else 500), per_assignment=(3 if quick else 12), extra_texts=ident_texts)
+               if pr.problem is not None]
+    # what the validated model of the UNCHANGED compiler predicts: finding F3 (internal NotImplementedError) is
+    # known only for problems whose chosen graph the model itself classifies as not lowerable
+    model = graphcorr.model_outcomes(drv, all_prs)
+
+    def f3_predicted(pr):
+        return model.get(pr.key()) == ("graph", False)
+
+    for pr in all_prs:
         reserved = sorted(names_of(pr) & C_RESERVED)
         graph_prs.append(pr)
         for kinds in ([rng.choice(kind_sets)] if quick else kind_sets):
@@ -111,7 +120,7 @@ def run(chk: Check, drv: Driver):
                     continue
                 except BaseException as e:  # noqa: BLE001
                     f = chk.match_known(lambda f: (f.get("signature", {}).get("kind") == "exception-site" and f["signature"].get("type") == type(e).__name__
-                                                   and _raised_in(e, f["signature"]))
+                                                   and _raised_in(e, f["signature"]) and f3_predicted(pr))
                                         or (f.get("signature", {}).get("predicate") == "reserved-identifier" and reserved))
                     if f:
                         chk.known(f["id"], f["what"])
@@ -153,7 +162,7 @@ def run(chk: Check, drv: Driver):
             name = type(e).__name__
             chk.count("tm_" + name)
             if name not in DOCUMENTED:
-                f = chk.match_known(lambda f: (f.get("signature", {}).get("kind") == "exception-site" and f["signature"].get("type") == name and _raised_in(e, f["signature"]))
+                f = chk.match_known(lambda f: (f.get("signature", {}).get("kind") == "exception-site" and f["signature"].get("type") == name and _raised_in(e, f["signature"]) and f3_predicted(pr))
                                     or (f.get("signature", {}).get("predicate") == "reserved-identifier" and reserved))
                 if f:
                     chk.known(f["id"], f["what"])
@@ -164,7 +173,7 @@ def run(chk: Check, drv: Driver):
         chk.count(f"cli_exit_{res.exit_code}")
         if res.exit_code not in (0, 1) or (res.exception is not None and not isinstance(res.exception, SystemExit)):
             exc = res.exception
-            f = chk.match_known(lambda f: (f.get("signature", {}).get("kind") == "exception-site" and f["signature"].get("type") == type(exc).__name__ and _raised_in(exc, f["signature"]))
+            f = chk.match_known(lambda f: (f.get("signature", {}).get("kind") == "exception-site" and f["signature"].get("type") == type(exc).__name__ and _raised_in(exc, f["signature"]) and f3_predicted(pr))
                                 or (f.get("signature", {}).get("predicate") == "reserved-identifier" and reserved))
             if f:
                 chk.known(f["id"], f["what"])
@@ -172,8 +181,6 @@ def run(chk: Check, drv: Driver):
                 chk.violation(f"CLI ended with exit code {res.exit_code} / exception {type(exc).__name__}", pr.case(entry="cli", args=args))
         elif res.exit_code == 1 and not (res.stderr or res.output).strip():
             chk.violation("CLI exited 1 without a message", pr.case(entry="cli", args=args))
-    from .. import graphcorr
-
     graphcorr.run_graphs(chk, drv, graph_prs)
     # C syntax checks in parallel
     with tempfile.TemporaryDirectory(prefix="verif_c08_") as td:
